@@ -175,3 +175,164 @@ Example C20_truncation_examples :
    out = ex_answer 10 []).
 Proof. exact truncation_examples. Qed.
 Print Assumptions C20_truncation_examples.
+
+(* ================================================================ COMPOSITION: the whole handler of a listener
+   [serve] above is "any function".  Here it is the real stack: Model/Compose.db_serve = the cache-enabled
+   database handler (Model/Cache.serve over Model/Serve.serve; with cc_enabled = false the uncached one) in
+   the state (generation g, cache c) at time now.  Proofs: Proofs/ComposeChain.v (on Proofs/Compose.v).
+
+   What does not line up between Model/Chain (concrete miekg messages, connection data) and Model/Serve
+   (projection of the response: rcode, AA, sections as items, OPT / ECS), and how it is bridged
+   ([bridge], Model/Compose.v - arbitrary functions, constrained only by the named hypotheses below):
+     br_wire   the wire form of the first question's (presentation) name: dns.PackDomainName;
+               None = it fails (dns.HandleFailed)
+     br_from   the requester as FindLocation sees it (remote address, ECS option) - the request's q_from
+     br_ecs    the ECS option FindLocation hands back for this request on this generation
+     br_render how a Serve.outcome is written: picks drawn (C11), names in presentation form, header bits
+               copied by SetReply, writeAndLog = SizeAndDo + Scrub (C20_udp_tc_tcp_complete_partial) -
+               env (transport, addresses) is used here and in br_from only
+   type, class, id and the last OPT's EDNS version are read from the message by [view] / [msg_extra]
+   (first question; root, 0, 0 when there is none, as coredns request.Name / QType / QClass).
+   [whole_server ulen base rlen optlen br ccfg g c now cfg e r] := server ... (db_serve br ccfg g c now) cfg e r.
+   [hfinal mx ccfg (g0, []) h] : the state (generation, cache) a sequential history h leaves behind, all
+   queries arriving with max answer mx (Properties/C12.v, composition part, for the vocabulary). *)
+From DnsV Require Model.Cache Model.Serve Model.LookupV1.
+From DnsV Require Import Spec.Answer Spec.Rows Spec.KeysV2 Proofs.ZoneCut Proofs.NoPanic Proofs.FileLevel.
+From DnsV Require Import Model.Compose Proofs.Compose Proofs.ComposeChain Proofs.ComposeExample.
+
+(* C20_server_is_spec.  For every listener configuration, every state the handler can be in after a
+   sequential history, and every accepted request whose first question is not ANY under refusal and does
+   not name the whoami domain (16-bit type and class, a name that packs): the listener's reply is the
+   rendering of what the database handler writes for the request's view [rq] with THIS listener's max
+   answer, and that - when it is a reply to a supported EDNS version - refines Spec/Answer.spec_response of
+   the records declared by the generation in force, for the client's location, modulo the letter case of
+   owner names (exactly, unless it is a cache hit).
+   By C20_chain_transparent, C12_cached_handler_is_spec's invariant, C01_response_is_spec / C01_file_level. *)
+Theorem C20_server_is_spec : forall ulen base rlen optlen br ccfg h g0 now cfg e r q0 rest w,
+  hist_wire h ->
+  accepted cfg r = true -> mq r = q0 :: rest ->
+  any_refused cfg q0 = false -> whoami_matched cfg q0 = false ->
+  br_wire br (qname q0) = Some w -> qtype q0 < 65536 -> qclass q0 < 65536 ->
+  let mx := max_answer cfg in
+  let g := fst (hfinal mx ccfg (g0, []) h) in
+  let c := snd (hfinal mx ccfg (g0, []) h) in
+  let rq := Cache.mkReq (br_from br e r) w (qtype q0) (qclass q0) (msg_extra r) in
+  let f := snd (fst (handle mx ccfg g c now rq)) in
+  let o := snd (handle mx ccfg g c now rq) in
+  whole_server ulen base rlen optlen br ccfg g c now cfg e r = br_render br e r (f (br_ecs br e r g)) /\
+  forall recs ecs y n,
+    let L := loc_of_num (locate g rq) in
+    gen_declares g L recs ->
+    (req_edns rq = None \/ req_edns rq = Some 0) ->
+    wf_name n -> nlen (pack n) <= 255 -> LookupV1.lower_bytes w = pack n ->
+    f ecs = Serve.OReply y ->
+    located g rq = true /\
+    refines_mod_case L recs n (query_of rq) ecs mx y /\
+    (o <> Cache.OHit -> response_refines L recs n (query_of rq) ecs mx y).
+Proof. exact server_is_spec. Qed.
+Print Assumptions C20_server_is_spec.
+
+(* the same for any state satisfying the cache invariant (every entry is the canonical outcome of the
+   current generation for its key and some asker's spelling): [Inv mx Pa g c] *)
+Theorem C20_server_is_spec_state : forall ulen base rlen optlen br ccfg Pa g c now cfg e r q0 rest w,
+  Inv (max_answer cfg) Pa g c ->
+  accepted cfg r = true -> mq r = q0 :: rest ->
+  any_refused cfg q0 = false -> whoami_matched cfg q0 = false ->
+  br_wire br (qname q0) = Some w -> Pa w -> qtype q0 < 65536 -> qclass q0 < 65536 ->
+  let mx := max_answer cfg in
+  let rq := Cache.mkReq (br_from br e r) w (qtype q0) (qclass q0) (msg_extra r) in
+  let f := snd (fst (handle mx ccfg g c now rq)) in
+  let o := snd (handle mx ccfg g c now rq) in
+  whole_server ulen base rlen optlen br ccfg g c now cfg e r = br_render br e r (f (br_ecs br e r g)) /\
+  forall recs ecs y n,
+    let L := loc_of_num (locate g rq) in
+    gen_declares g L recs ->
+    (req_edns rq = None \/ req_edns rq = Some 0) ->
+    wf_name n -> nlen (pack n) <= 255 -> LookupV1.lower_bytes w = pack n ->
+    f ecs = Serve.OReply y ->
+    located g rq = true /\
+    refines_mod_case L recs n (query_of rq) ecs mx y /\
+    (o <> Cache.OHit -> response_refines L recs n (query_of rq) ecs mx y).
+Proof. exact server_is_spec_state. Qed.
+Print Assumptions C20_server_is_spec_state.
+
+(* the empty cache satisfies the invariant, a purge restores it (so does every step: Proofs/Compose.handle_step) *)
+Theorem C20_inv_empty : forall mx Pa g, Inv mx Pa g [].
+Proof. exact Inv_nil. Qed.
+Print Assumptions C20_inv_empty.
+
+(* a Panic of a listener can only be a Panic of the database handler on a message WITH a question: the
+   serve_mux guard, the accept step and the front handlers never panic themselves *)
+Theorem C20_server_panic_origin : forall ulen base rlen optlen serve cfg e r,
+  server ulen base rlen optlen serve cfg e r = Panic ->
+  exists q0 rest, mq r = q0 :: rest /\ serve (max_answer cfg) e r = Panic.
+Proof. exact server_panic. Qed.
+Print Assumptions C20_server_panic_origin.
+
+(* C20_server_never_panics.  With the serve_mux guard in place the whole server never panics: for every
+   listener configuration, connection and request (with or without a question, accepted or not, any
+   opcode, ANY, whoami, any EDNS version, located or not), in every state reached by a sequential history
+   of requests off the wire ([hist_wire_names]: 16-bit type and class, wire-valid names), whatever the
+   cache holds - under C13's store guard for the generation in force (v2 keys only: wf_store_v2, which every
+   compiled database satisfies: C13_compiled_store_wf) and the two named hypotheses on the miekg side:
+     wire_ok br   : what PackDomainName returns is an uncompressed wire name (labels 1..63, <= 255 octets)
+     render_ok br : writing a reply panics only if the handler's outcome was a panic (or out of fuel)
+   By C20_no_question_fails_not_panics' case analysis (C20_server_panic_origin), the cache invariant and
+   C13_no_panic. *)
+Theorem C20_server_never_panics : forall ulen base rlen optlen br ccfg h g0 now cfg e r,
+  wire_ok br -> render_ok br -> hist_wire_names h ->
+  let mx := max_answer cfg in
+  let g := fst (hfinal mx ccfg (g0, []) h) in
+  let c := snd (hfinal mx ccfg (g0, []) h) in
+  (g_backend g = LookupV1.RDB2 -> wf_store_v2 (g_store g) = true) ->
+  (forall q0 rest, mq r = q0 :: rest -> qtype q0 < 65536 /\ qclass q0 < 65536) ->
+  whole_server ulen base rlen optlen br ccfg g c now cfg e r <> Panic.
+Proof. exact server_never_panics. Qed.
+Print Assumptions C20_server_never_panics.
+
+Theorem C20_server_never_panics_state : forall ulen base rlen optlen br ccfg g c now cfg e r,
+  wire_ok br -> render_ok br ->
+  Inv (max_answer cfg) wire_asked g c ->
+  (g_backend g = LookupV1.RDB2 -> wf_store_v2 (g_store g) = true) ->
+  (forall q0 rest, mq r = q0 :: rest -> qtype q0 < 65536 /\ qclass q0 < 65536) ->
+  whole_server ulen base rlen optlen br ccfg g c now cfg e r <> Panic.
+Proof. exact server_never_panics_state. Qed.
+Print Assumptions C20_server_never_panics_state.
+
+(* the named hypotheses and the history guard, spelled out *)
+Theorem C20_bridge_hypotheses_meaning : forall br h,
+  (wire_ok br <-> forall nm w, br_wire br nm = Some w -> wire_name w = true) /\
+  (render_ok br <-> forall e r o, br_render br e r o = Panic -> o = Serve.OPanic \/ o = Serve.OFuel) /\
+  (hist_wire_names h <->
+   Forall (fun ev => match ev with
+                     | Cache.EQuery _ _ _ r => Cache.q_qtype r < 65536 /\ Cache.q_qclass r < 65536 /\ wire_name (Cache.q_asked r) = true
+                     | _ => True end) h).
+Proof. intros. unfold wire_ok, render_ok, hist_wire_names, hist_ok, req_ok, wire_asked. tauto. Qed.
+Print Assumptions C20_bridge_hypotheses_meaning.
+
+(* non-vacuity: the listener (whoami WhoAmI.example.com, refuse-any, default accept, max answer 1) over the
+   cache-enabled handler on generation 1 of C12_cached_handler_example (the data file of
+   C01_file_level_example as CDB) after TXT Foo.example.com has been asked; toy bridge (names without escapes
+   split at the dots, requester 1, records rendered with their wire owner) satisfying both hypotheses.
+   TXT foo.example.com. : answered from the cache with the owner as first asked, AA, this request's id;
+   ANY: HINFO; the whoami name: its TXT records; no question: FORMERR *)
+Example C20_whole_server_example :
+  wire_ok toy_bridge /\ render_ok toy_bridge /\
+  (exists m, y_server y_st1 (ex_query y_foo_text 16 []) = Reply m /\
+             man m = [mkRR y_Foo 16 1 120 [5; 104; 101; 108; 108; 111]] /\
+             haa (mh m) = true /\ hid (mh m) = 4660) /\
+  any_refused y_lcfg (mkQ y_foo_text 16 1) = false /\
+  whoami_matched y_lcfg (mkQ y_foo_text 16 1) = false /\
+  (exists m, y_server y_st1 (ex_query y_foo_text 255 []) = Reply m /\
+             man m = [mkRR y_foo_text 13 1 86400 hinfo_rdata]) /\
+  (exists m, y_server y_st1 (ex_query y_whoami_text 16 []) = Reply m /\ length (man m) = 4%nat) /\
+  (exists m, y_server y_st1 (mkM (mkH 7 false 0 false false true false false false false 0) [] [] [] []) = Reply m /\
+             hrcode (mh m) = 1).
+Proof. exact whole_server_example. Qed.
+Print Assumptions C20_whole_server_example.
+
+(* What remains outside.  The bridge functions are parameters: that miekg's Unpack / PackDomainName, the
+   location lookup and the message writer behave as [wire_ok] / [render_ok] say is the differential run's
+   matter (C13, C20 harnesses), as is the tie of [view] to coredns request.Request.  max answer is the same
+   for all queries of the history that built the cache (one listener, or listeners configured alike).
+   ANY under refusal and the whoami name are C20_any_is_hinfo_only / C20_whoami_scope (database not consulted). *)
